@@ -505,19 +505,86 @@ def r7(ctx):
     C04.r7(ctx, rule="R7", sites=[s for s in C04.ROW_CLASS_SITES if s[0] == "data.filter_dataset_to_treatments_that_appear_in_at_least_one_combo"])
     f = ctx.fn("data.filter_dataset_to_treatments_that_appear_in_at_least_one_combo")
     S = f.params[0]
-    env = single_defs(f.node)
+    ids = "treatment_ids"
+    env = {k: v for k, v in single_defs(f.node).items() if k != ids}
     r = returns(f.node)
     ok = False
+    why = "return is not screen.subset(rows).to_screen()"
+
+    def T(x):
+        return U(x).replace(" ", "")
+
+    def axis1(c):
+        ax = kwargs(c).get("axis", c.args[1] if len(c.args) > 1 else None)
+        return ax is not None and T(ax) in ("1", "-1")
+
+    def elem(x):
+        """(reference-set expr, polarity) for an element-wise membership mask over the id matrix"""
+        x = inline(x, env, depth=1) if isinstance(x, ast.Name) else x
+        if isinstance(x, ast.UnaryOp) and isinstance(x.op, ast.Invert):
+            m = elem(x.operand)
+            return None if m is None else (m[0], not m[1])
+        if isinstance(x, ast.Call) and isinstance(x.func, ast.Attribute) and x.func.attr == "reshape":
+            return elem(x.func.value)
+        if isinstance(x, ast.Call) and call_name(x) in ("np.isin", "np.in1d") and len(x.args) >= 2 and T(x.args[0]) in (ids, f"{ids}.flatten()", f"{ids}.ravel()"):
+            inv = kwargs(x).get("invert")
+            return (x.args[1], not (inv is not None and T(inv) == "True"))
+        return None
+
+    def rows(x):
+        """reference-set expr such that x == 'every id of the row is in the set'"""
+        x = inline(x, env, depth=1) if isinstance(x, ast.Name) else x
+        if isinstance(x, ast.UnaryOp) and isinstance(x.op, ast.Invert):
+            y = inline(x.operand, env, depth=1) if isinstance(x.operand, ast.Name) else x.operand
+            if isinstance(y, ast.Call) and call_name(y) == "np.any" and y.args and axis1(y):
+                m = elem(y.args[0])
+                return m[0] if m is not None and m[1] is False else None
+            return None
+        if isinstance(x, ast.Call) and call_name(x) == "np.all" and x.args and axis1(x):
+            m = elem(x.args[0])
+            return m[0] if m is not None and m[1] is True else None
+        return None
+
+    def reference(x):
+        """row selector SEL such that x == unique(ids[SEL]) + {sentinel}"""
+        x = inline(x, env)
+        parts = None
+        if isinstance(x, ast.Call) and call_name(x) in ("np.concatenate", "np.hstack") and x.args and isinstance(x.args[0], (ast.List, ast.Tuple)) and len(x.args[0].elts) == 2:
+            parts = list(x.args[0].elts)
+        elif isinstance(x, ast.Call) and call_name(x) in ("np.append", "np.union1d") and len(x.args) == 2:
+            parts = list(x.args)
+        if parts is None:
+            return None
+        sent = [p_ for p_ in parts if T(p_) in ("CONTROL_SENTINEL_VALUE", "[CONTROL_SENTINEL_VALUE]", "-1", "[-1]", "(CONTROL_SENTINEL_VALUE,)", "np.array([CONTROL_SENTINEL_VALUE])")]
+        rest = [p_ for p_ in parts if p_ not in sent]
+        if len(sent) != 1 or len(rest) != 1:
+            return None
+        u = rest[0]
+        if not (isinstance(u, ast.Call) and call_name(u) == "np.unique" and len(u.args) == 1 and not u.keywords):
+            return None
+        a = u.args[0]
+        while isinstance(a, ast.Call) and isinstance(a.func, ast.Attribute) and a.func.attr in ("flatten", "ravel") or \
+                (isinstance(a, ast.Call) and isinstance(a.func, ast.Attribute) and a.func.attr == "reshape" and T(a.args[0]) == "-1"):
+            a = a.func.value
+        if isinstance(a, ast.Subscript) and T(a.value) == ids and not isinstance(a.slice, (ast.Tuple, ast.Slice)):
+            return a.slice
+        return None
     if len(r) == 1:
-        e = inline(r[0].value, {k: v for k, v in env.items() if k in ("screen_selection_vector", "treatments_to_select_plus_controls", "treatments_to_select")})
-        t = U(e).replace(" ", "")
-        ids = "treatment_ids"
-        ok = t == (f"{S}.subset(np.all(np.in1d({ids},np.concatenate([np.unique({ids}[treatment_selection_vector].flatten()),[CONTROL_SENTINEL_VALUE]]))"
-                   f".reshape({ids}.shape),axis=1)).to_screen()") or \
-            t == (f"{S}.subset(np.all(np.isin({ids},np.concatenate([np.unique({ids}[treatment_selection_vector].flatten()),[CONTROL_SENTINEL_VALUE]])),axis=1)).to_screen()")
+        e = r[0].value
+        if isinstance(e, ast.Call) and isinstance(e.func, ast.Attribute) and e.func.attr == "to_screen" and isinstance(e.func.value, ast.Call) \
+                and T(e.func.value.func) == f"{S}.subset" and len(e.func.value.args) == 1:
+            ref = rows(e.func.value.args[0])
+            why = "the kept rows are not `every id of the row is in a reference set`"
+            if ref is not None:
+                sel = reference(ref)
+                why = f"the reference set `{U(inline(ref, env))[:100]}` is not unique({ids}[combination rows]) plus the sentinel"
+                if sel is not None:
+                    cls = C04.control_count_class(inline(sel, env), ids)
+                    ok = cls == ("count", "==", "0")
+                    why = f"the reference rows `{U(sel)}` are not the rows without any control"
     ctx.check("R7", f"{f.site()}::keeps-rows-within-reference-set", ok,
               "keeps the rows all of whose ids are in (ids occurring in reference rows) + {sentinel}",
-              "the filter does not keep exactly the rows whose every id is a combination treatment or the control sentinel")
+              f"the filter does not keep exactly the rows whose every id is a combination treatment or the control sentinel ({why})")
 
 
 RULE_FUNCS = [r1, r2, r3, r4, r5, r6, r7]
